@@ -21,7 +21,7 @@ def generate(G):
     once("fanout3", "FanOut3", 2, "thorough", "x consumed by three nodes that are then combined")
     once("diamond", "Diamond", 2, "quick", "a * ((a*b) + a)")
     G.ob("c11_bcastcustom", "C11", "once", "c11::once(s, &programs::BcastCustom, %s)" % G.leaves([L([2], "D2"), L([2], "D2"), L([2, 2], "D2")]),
-         unwind=8, tier="quick", skeleton={"program": "n0 = a*k; n1 = n0*k; n2 = m*n0 (n0 broadcast into [2,2]); n3 = n2 + n1", "ops": "Array::op with counting, broadcasting closures"},
+         unwind=8, tier="quick", skeleton={"program": "n0 = a*k; n1 = n0*k; n2 = m*n0 (n0 broadcast into [2,2]); n3 = n1 + n2", "ops": "Array::op with counting, broadcasting closures"},
          domains="values D2, seed D4")
     G.ob("c11_detacheduse", "C11", "once", "c11::once(s, &programs::DetachedUse, %s)" % G.leaves([L([2], "D2"), L([2], "D2")]),
          unwind=6, tier="quick", skeleton={"program": "y = a*b; z = y * y.clone().untracked()", "ops": "Array::op with counting closures"},
